@@ -46,6 +46,10 @@ class Interop(core.Scenario):
         else:
             w.run()
         self.sid = w.cw.client.sid
+        if p.get('fault') is not None and w.sw.wss:
+            # one write of the server on the WebSocket fails (connection reset), k frames from now
+            h = w.sw.wss[-1]
+            h.fail_send_at = getattr(h, 'nsend', 0) + p['fault']
         self.t_burst = 0.0
         self.idle_cycles = p.get('idle', 0)
         self.t_end = w.now + ((self.idle_cycles) * (iv + 2 * lat) + 0.5 if self.idle_cycles else 0.0)
@@ -162,14 +166,14 @@ class Interop(core.Scenario):
         def same(a, b):
             return len(a) == len(b) and all(codec.payload_equal(bytes(x) if isinstance(x, bytearray) else x, y) for x, y in zip(a, b))
         # a send issued after the disconnect was requested is not owed
-        if who is not None:
+        if who is not None and p.get('fault') is None:
             if not subseq_ok(got_s, owed_s, all_s):
                 self.flag('c2s_loss_or_disorder', 'server received %r; owed (sent before the disconnect) %r of %r' % (got_s, owed_s, all_s),
                           trigger=trig, direction='c2s', n=p['c2s'])
             if not subseq_ok(disp_c, owed_c, all_c):
                 self.flag('s2c_loss_or_disorder', 'client dispatched %r; owed (sent before the disconnect) %r of %r' % (disp_c, owed_c, all_c),
                           trigger=trig, direction='s2c', n=p['s2c'])
-        else:
+        elif p.get('fault') is None:
             if not same(got_s, want_s):
                 lost = len(want_s) - len(got_s)
                 self.flag('c2s_loss_or_disorder', 'server received %d of %d client messages%s' %
@@ -180,6 +184,17 @@ class Interop(core.Scenario):
                           (len(got_c), len(disp_c), len(want_c)), trigger=trig, direction='s2c', n=p['s2c'])
         cd = [e for e in cev if e[0] == 'disconnect']
         sd = [e for e in sev if e[0] == 'disconnect']
+        if p.get('fault') is not None:
+            # a failed write ends the connection: one disconnect on each side, and what the client received is a
+            # prefix of what the server sent (nothing is delivered after the frame that failed)
+            if len(cd) != 1 or len(sd) != 1:
+                self.flag('disconnect_count', 'a write of the server failed: client saw %r, server saw %r (want one each)'
+                          % ([e[1] for e in cd], [e[2] for e in sd]), trigger='server_write_fault',
+                          client_saw='+'.join(e[1] for e in cd), server_saw='+'.join(e[2] for e in sd))
+            if not same(disp_c, all_c[:len(disp_c)]):
+                self.flag('s2c_loss_or_disorder', 'a write of the server failed; the client dispatched %r, the server sent %r: not a prefix'
+                          % (disp_c, all_c), trigger='server_write_fault', direction='s2c', n=p['s2c'])
+            return
         if who is None:
             if cd or sd:
                 self.flag('spurious_disconnect', 'nobody disconnected, yet client saw %r and server saw %r' %
@@ -216,6 +231,10 @@ def param_list(ctx, pairs):
                     ps.append(dict(base_p, c2s=n, s2c=0, atonce=True))
                     ps.append(dict(base_p, c2s=0, s2c=n, atonce=True))
                 ps.append(dict(base_p, c2s=0, s2c=0, idle=6))
+                if hb == [1.0, 1.0] and tr != ['polling']:
+                    # a burst from the server during which one WebSocket write fails, then one more send
+                    for k in (0, 1, 2):
+                        ps.append(dict(base_p, c2s=0, s2c=4, atonce=True, fault=k))
                 if hb == [1.0, 1.0]:
                     # one message of every payload shape in each direction, one at a time and as one batch
                     ps.append(dict(base_p, c2s=len(ZOO), s2c=len(ZOO), zoo=True))
